@@ -4,6 +4,7 @@ CONSTANTS
   DEV_RestrictedNeedsValidBody = FALSE
   DEV_DelCredEmptyListIsNil = FALSE
   MaxCount = 2
+  Small = FALSE
 SPECIFICATION Spec
 INVARIANTS CacheEqualsStored ReaddRefused StoredTagsNormalised MaskedNsOnlyOwn ActiveOnlyForNonRoot StoreGetsTheDocumentedQuery
 PROPERTIES ImmutableNsUntouchable RejectedChangesNothing
